@@ -21,8 +21,8 @@ type c07LineDoc struct {
 	seqKeys []string // top-level keys holding a block sequence
 	seqLen  map[string]int
 	njobs   int
-	globMap string // top-level key of a map with pattern-looking keys ("" if none)
-	victim  string // the unique value of the pattern-looking entry of globMap
+	globMap string   // top-level key of a map with pattern-looking keys ("" if none)
+	victim  string   // the unique value of the pattern-looking entry of globMap
 	mapKeys []string // top-level keys holding a block map
 }
 
